@@ -16,7 +16,10 @@ var TypeTypeParameter = NewStructType([]*StructElement{
 
 func (t *typeParameter) initHash() hash.StringHash {
 	h := t.attribute.initHash()
-	h.Put(keyType, h.GetOrDefault(keyType, nil).(*TypeType).PType())
+	// the type of a type parameter is kept as Optional[T] (objectType.initFromHash); the init hash holds T
+	if ot, ok := h.GetOrDefault(keyType, nil).(*OptionalType); ok {
+		h.Put(keyType, ot.ContainedType())
+	}
 	if v, ok := h.Get(keyValue); ok && v.(px.Value).Equals(undef, nil) {
 		h.Delete(keyValue)
 	}
